@@ -577,7 +577,7 @@ def rvs_scenarios(ctx, rnd):
             con = dict(kind="pattern", patterns=pats, nan_invalid=rnd.random() < 0.2)
         else:
             con = dict(kind="none")
-        sc.update(kind="rvs", size=rnd.choice([None, 0, 1, 2, 3, 5, 8, 13, 30]), seed=rnd.randint(0, 2 ** 31 - 1), constraint=con)
+        sc.update(kind="rvs", size=rnd.choice([None, 0, 1, 2, 3, 5, 8, 13, 30]), seed=(0 if rnd.random() < 0.08 else rnd.randint(0, 2 ** 31 - 1)), constraint=con)
         out.append(sc)
     return out, n_exh
 
